@@ -60,6 +60,11 @@ def make_input(ctx, arg, name, D, P):
         A[idx] = ctx.cvar(nm) if arg.cplx else ctx.var(nm)
         if not arg.cplx and (arg.kind != 'utpm' or idx[0] == 0):
             _dom(ctx, A[idx], arg.dom)
+    if arg.dom == 'den01':
+        # programs dividing by 1 + x[0]*x[1]: that denominator delimits their domain
+        Z = A[0] if arg.kind == 'utpm' else A[None]
+        for p in range(Z.shape[0]):
+            ctx.assume(1 + Z[p][0] * Z[p][1] != 0)
     if arg.dom == 'zero' and arg.kind == 'utpm':
         # base point exactly on the kink
         for idx in np.ndindex(*A[0].shape):
